@@ -450,7 +450,7 @@ def patched(log: List[Dict[str, Any]], holder: Dict[str, Any]):
         epydoc2stan.reportErrors, driver.get_system = o_re, o_gs
 
 
-def run_driver(src: Any, fmt: str, wae: bool, names: List[str]) -> Dict[str, Any]:
+def run_driver(src: Any, fmt: str, wae: bool, names: List[str], extra_args: Optional[List[str]] = None) -> Dict[str, Any]:
     """one real pydoctor run; everything the checks need, as plain data"""
     from pydoctor import driver
     d = tempfile.mkdtemp(prefix="c16-")
@@ -468,7 +468,7 @@ def run_driver(src: Any, fmt: str, wae: bool, names: List[str]) -> Dict[str, Any
             path = os.path.join(d, "m.py")
             with open(path, "w", encoding="utf-8", newline="\n") as f:
                 f.write(src)
-        args = ["--docformat", FMTS[fmt], "--html-output", os.path.join(d, "out"), "--project-name", "p"]
+        args = ["--docformat", FMTS[fmt], "--html-output", os.path.join(d, "out"), "--project-name", "p"] + list(extra_args or [])
         if wae:
             args.append("--warnings-as-errors")
         rc: Any
